@@ -8,6 +8,7 @@ import (
 	"net/url"
 	"os"
 	"path/filepath"
+	"sort"
 	"strings"
 	"sync"
 	"testing"
@@ -308,7 +309,10 @@ func ExecuteC19(t *testing.T, plan *Plan) *RunResult {
 	res.Signature = bodyHash([]byte(res.Outcome))
 	res.NonTrivial = len(n.Log) >= 1
 	res.Events = len(n.Log)
-	res.EventHash = bodyHash([]byte(res.Outcome))
+	// concurrent index downloads arrive in an order the harness does not decide: hash the sorted request set
+	so := append([]string{}, outcome...)
+	sort.Strings(so)
+	res.EventHash = bodyHash([]byte(fmt.Sprintf("%s|%v|%s|%d", spec.Path, opErr != nil, strings.Join(so, " "), len(res.Violations))))
 	_ = sent
 	return res
 }
